@@ -17,14 +17,6 @@ def OEvent.Ok : OEvent → Prop
 instance (e : OEvent) : Decidable e.Ok := by
   cases e <;> (unfold OEvent.Ok; infer_instance)
 
-/-- The only oracle-dependent hypothesis of losslessness: whenever `compute_error` takes its wrapping
-`i64` path for a quantised LPC parameter set of the log (`Strict.lpcWide`: `maxabs(signal)·Σ|coef| ≥
-2^31 - 1`), the exact residual fits an `i32`. (On the checked `i32` path an overflow is a panic, not a
-wrong stream; the fixed predictors need no such hypothesis.) -/
-def LpcFits (log : List OEvent) (xs : List Int) : Prop :=
-  ∀ coefs shift precision, OEvent.qlpc coefs shift precision ∈ log → Strict.lpcWide coefs xs →
-    ∀ e ∈ lpcResidual coefs shift.toNat xs, fitsI32 e = true
-
 namespace Strict
 
 theorem foldl_min_mem {α : Type} (key : α → Nat) (xs : List α) (x : α) :
@@ -87,10 +79,11 @@ def FixedShape (cfg : SubCfg) (xs : List Int) (bps : Nat) (f : SubFrame) : Prop 
   ∃ k prc, k ≤ 4 ∧ search (diffs k xs) k cfg.maxP = some prc ∧
     f = .fixed (xs.take k) (Residual.ofErrors (diffs k xs) k prc.order prc.ps) bps
 
-/-- An LPC candidate: parameters from the log, residual from `compute_error` and a successful search. -/
+/-- An LPC candidate: parameters from the log, residual from `compute_error` (which returned the flag
+`true`: the candidate is dropped otherwise) and a successful search. -/
 def LpcShape (cfg : SubCfg) (xs : List Int) (bps : Nat) (log : List OEvent) (f : SubFrame) : Prop :=
   ∃ coefs shift precision errors prc, OEvent.qlpc coefs shift precision ∈ log ∧
-    computeError coefs shift.toNat xs = some errors ∧ search errors coefs.length cfg.maxP = some prc ∧
+    computeError coefs shift.toNat xs = some (errors, true) ∧ search errors coefs.length cfg.maxP = some prc ∧
     f = .lpc (xs.take coefs.length) coefs shift precision
       (Residual.ofErrors errors coefs.length prc.order prc.ps) bps
 
@@ -185,7 +178,6 @@ theorem lpcStage_shape (cfg : SubCfg) (xs : List Int) (bps limit : Nat) (log log
     intro f hf
     rw [hf] at hkb
     have hc0 := keepBelow_some _ _ _ hkb
-    simp only [Option.some.injEq] at hc0
     subst hc0
     have hlen : 64 ≤ xs.length := by
       simp [minBlockForPrediction] at hcond
@@ -195,12 +187,17 @@ theorem lpcStage_shape (cfg : SubCfg) (xs : List Int) (bps limit : Nat) (log log
     unfold lpcCandidate at hlc
     split at hlc
     · rename_i coefs shift precision log'
-      simp only [Option.bind_eq_bind, Option.bind_eq_some_iff, Option.some.injEq, Prod.mk.injEq] at hlc
-      obtain ⟨errors, he, res, hres, rfl, _⟩ := hlc
-      unfold encodeResidual at hres
-      simp only [Option.bind_eq_bind, Option.bind_eq_some_iff, Option.some.injEq] at hres
-      obtain ⟨prc, hs, rfl⟩ := hres
-      exact ⟨coefs, shift, precision, errors, prc, by simp, he, hs, rfl⟩
+      simp only [Option.bind_eq_some_iff] at hlc
+      obtain ⟨⟨errors, fits⟩, he, hlc⟩ := hlc
+      cases fits with
+      | false => simp at hlc
+      | true =>
+        simp only [if_true, Option.map_eq_some_iff, Prod.mk.injEq, Option.some.injEq] at hlc
+        obtain ⟨res, hres, rfl, _⟩ := hlc
+        unfold encodeResidual at hres
+        simp only [Option.bind_eq_bind, Option.bind_eq_some_iff, Option.some.injEq] at hres
+        obtain ⟨prc, hs, rfl⟩ := hres
+        exact ⟨coefs, shift, precision, errors, prc, by simp, he, hs, rfl⟩
     · cases hlc
   · simp only [Option.some.injEq, Prod.mk.injEq] at h
     obtain ⟨rfl, rfl⟩ := h
@@ -245,9 +242,17 @@ theorem lpcStage_sub (cfg : SubCfg) (xs : List Int) (bps limit : Nat) (log log1 
     obtain ⟨⟨c0, l0⟩, hlc, _, rfl⟩ := h
     unfold lpcCandidate at hlc
     split at hlc
-    · simp only [Option.bind_eq_bind, Option.bind_eq_some_iff, Option.some.injEq, Prod.mk.injEq] at hlc
-      obtain ⟨_, _, _, _, _, rfl⟩ := hlc
-      intro e he; exact List.mem_cons_of_mem _ he
+    · simp only [Option.bind_eq_some_iff] at hlc
+      obtain ⟨⟨errors, fits⟩, _, hlc⟩ := hlc
+      cases fits with
+      | false =>
+        simp only [Bool.false_eq_true, if_false, Option.some.injEq, Prod.mk.injEq] at hlc
+        obtain ⟨_, rfl⟩ := hlc
+        intro e he; exact List.mem_cons_of_mem _ he
+      | true =>
+        simp only [if_true, Option.map_eq_some_iff, Prod.mk.injEq] at hlc
+        obtain ⟨_, _, _, rfl⟩ := hlc
+        intro e he; exact List.mem_cons_of_mem _ he
     · cases hlc
   · simp only [Option.some.injEq, Prod.mk.injEq] at h
     obtain ⟨_, rfl⟩ := h
